@@ -170,12 +170,18 @@ class QueryBuilder:
 
         def emit(node):
             conclusion(node)
-            if node["ref"]["k"] == "node":
-                with refinement(self.cond(node["ref"]["cond"])):
-                    emit(node["ref"])
+
+            def refine():
+                if node["ref"]["k"] == "node":
+                    with refinement(self.cond(node["ref"]["cond"])):
+                        emit(node["ref"])
+            if not node.get("reflast"):
+                refine()
             for alt in node["alts"]:         # one `with alternative(...)` block after the other, in this node's block
                 with alternative(self.cond(alt["cond"])):
                     emit(alt)
+            if node.get("reflast"):          # the refinement block written after the alternatives
+                refine()
 
         with rule_mode(self.query):
             emit(tree)
